@@ -125,6 +125,9 @@ fn inner(name: &str, a: &[String]) -> String {
         "floor" => d(dur(a, 0).floor(dur(a, 2))),
         "ceil" => d(dur(a, 0).ceil(dur(a, 2))),
         "round" => d(dur(a, 0).round(dur(a, 2))),
+        "epoch_floor" => e(Epoch::from_duration(dur(a, 0), scale(&a[2])).floor(dur(a, 3))),
+        "epoch_ceil" => e(Epoch::from_duration(dur(a, 0), scale(&a[2])).ceil(dur(a, 3))),
+        "epoch_round" => e(Epoch::from_duration(dur(a, 0), scale(&a[2])).round(dur(a, 3))),
         "signum" => format!("{}", dur(a, 0).signum()),
         "from_time_of_week" => e(Epoch::from_time_of_week(p(&a[0]), p(&a[1]), scale(&a[2]))),
         "to_time_of_week" => {
